@@ -26,7 +26,8 @@ LEVEL = ("Histories of 4-14 calls - building relaxation tensors (Redfield static
          "hierarchy tables, initial states and axes must be unchanged (1e-12 relative), the Manager must be back in its "
          "default state, a call repeated with the same arguments must return the same numbers as the first time, and a "
          "density-matrix propagator that has been used before (with or without additional Lorentzian/Gaussian pure "
-         "dephasing, at other refinements) must return what a freshly constructed propagator with the same inputs returns.")
+         "dephasing, at other refinements) must return what a freshly constructed propagator with the same inputs returns."
+         " Later additions: deterministic X,Y,X histories over all pairs of call kinds; time-dependent combined tensor; one superoperator object recalculated with changing pure dephasing; refinement set / overridden by argument / default.")
 NOTE = ("A propagator's refinement set explicitly with setDtRefinement is treated as an input of later default calls; "
         "the Nref *argument* of propagate() is not. dim <= 4, <= 60 time points, hierarchy depth <= 2.")
 RULE = ("history = list of ops over a pool built from gens.system_spec(N 2..3, coupled); op arguments are indices "
